@@ -499,7 +499,12 @@ func hsOne(ci int, cs caseSpec, idx int, a *agg) {
 	}
 	beginCall(info)
 	var res hsResult
-	if cs.Side != "" {
+	if cs.Class == "preauth-array-bomb" {
+		// first message to Accept, before any authentication: a type descriptor declaring a 4 GiB array
+		pl := cat([]byte{130, 0, 6, 158}, be32(0xffffffff), []byte{151}, []byte{1, 2, 3})
+		msg := append([]byte{87, 1, 0, 0, 0, byte(len(pl))}, pl...)
+		res = runRaw("accept", msg, logf)
+	} else if cs.Side != "" {
 		res = runRaw(cs.Side, rawInput(rng), logf)
 	} else {
 		sl := hsSlots[cs.Item]
@@ -579,10 +584,14 @@ func hsJobs() []job {
 			cases = append(cases, caseSpec{ID: id, Target: "hs", Class: "raw", Side: side, N: 150 * m, Only: onlyIdx(id)})
 		}
 	}
-	if len(cases) == 0 {
-		return nil
-	}
 	var jobs []job
+	if id := "hs/directed/accept/preauth-array-bomb"; want(id) {
+		jobs = append(jobs, job{name: "hs-preauth-bomb", mode: "hs", memKB: 256 << 10, wall: 10 * time.Minute, procs: 2,
+			cases: []caseSpec{{ID: id, Target: "hs", Class: "preauth-array-bomb", Side: "accept", N: 1, Only: -1}}})
+	}
+	if len(cases) == 0 {
+		return jobs
+	}
 	nj := 4
 	if len(cases) < nj {
 		nj = len(cases)
